@@ -7,6 +7,7 @@ import (
 	"io"
 	"math/rand"
 	"runtime"
+	"strings"
 	"sync"
 	"sync/atomic"
 	"unsafe"
@@ -259,6 +260,28 @@ func (s *gState) cycleFailing(i int) {
 	br.Skip(thrift.STRUCT)
 	br.Recycle()
 	dr.Release(nil)
+	// the shipped structs fail on the same kind of input in every goroutine at once: the error each gets is its
+	// own (it names its own struct and field, once) and does not change afterwards
+	trunc := ref.U32(ref.EncFieldBegin(nil, ref.STRING, 1), uint32(50+s.r.Intn(50)))
+	trunc = append(trunc, taggedBytes(s.g, i, 3, s.r.Intn(20))...)
+	var ferr error
+	own, other := "*base.Base read field", "*base.BaseResp"
+	if s.r.Intn(2) == 0 {
+		_, ferr = (&base.Base{}).FastRead(trunc)
+	} else {
+		_, ferr = (&base.BaseResp{}).FastRead(trunc)
+		own, other = "*base.BaseResp read field", "*base.Base read"
+	}
+	if ferr == nil {
+		s.fail("concurrent-stream-bytes", i, "FastRead accepted a truncated struct")
+	} else {
+		t1 := ferr.Error()
+		runtime.Gosched()
+		t2 := ferr.Error()
+		if t1 != t2 || strings.Count(t1, own) != 1 || strings.Contains(t1, other) {
+			s.fail("concurrent-error-text", i, "the error of a failed FastRead does not name its own struct once, or changed after it was returned: %q then %q", t1, t2)
+		}
+	}
 	s.cycles["failing-calls"]++
 }
 
@@ -647,6 +670,12 @@ func monC14(c *drv.Ctx) {
 		for k := range maps {
 			maps[k] = newSharedMaps(cs.R, []int{1, 5, 24, 100, 700, 3000}[k])
 		}
+		if cs.Idx%4 == 0 {
+			// a map of more than 2^18 keys, loaded last: whatever a load of that size sets in motion must be over
+			// when it returns, the goroutines query it the moment they start
+			maps = append(maps, newSharedMaps(cs.R, 270000))
+			cs.C.Obs("shared maps of more than 2^18 keys", 1)
+		}
 		states := make([]*gState, g.G)
 		var wg sync.WaitGroup
 		start := make(chan struct{})
@@ -662,6 +691,9 @@ func monC14(c *drv.Ctx) {
 					}
 				}()
 				<-start
+				if len(maps) > 6 {
+					st.cycleSharedMaps(0, maps[6])
+				}
 				// the very first action of every goroutine is a lookup on the freshly loaded maps
 				st.cycleSharedMaps(0, maps[st.g%len(maps)])
 				for i := 1; i <= g.iters && st.failure == nil; i++ {
